@@ -970,6 +970,14 @@ func rebuildTables(sc *Scenario, ss serverSide) {
 	var e JSONEndEntry
 	fillJSONErrEntry(&e, body)
 	sc.JSONErr[hx(body)] = e
+	// a compressed error body is looked up by what it inflates to
+	for _, tag := range []byte{'Z', 'Y'} {
+		if plain, err := rleDecompress(tag, body); err == nil && len(body) > 0 {
+			var e JSONEndEntry
+			fillJSONErrEntry(&e, plain)
+			sc.JSONErr[hx(plain)] = e
+		}
+	}
 	for b := body; len(b) >= 5; {
 		n := int(binary.BigEndian.Uint32(b[1:5]))
 		if len(b) < 5+n {
